@@ -21,11 +21,11 @@ func init() {
 		Doc: "environment list: strings.Fields in order, empty values skipped, first variable that sets without error wins, multi-valued: Clear, Split on ',', TrimSpace, Set each", Run: val3})
 	register(&Rule{ID: "VAL-4", Props: []string{"C06", "C19"}, Floor: 1,
 		Doc: "environment application is atomic: no Clear of the target may be followed by a failing exit", Run: val4})
-	register(&Rule{ID: "VAL-5", Props: []string{"C19", "C10", "C17"}, Floor: 2,
+	register(&Rule{ID: "VAL-5", Props: []string{"C19", "C10", "C17", "C02"}, Floor: 2,
 		Doc: "capability detection uses the methods' results: IsBool = BoolValued && IsBoolFlag(); DefaultValue = \"\" iff DefaultValued && IsDefault(), else String()", Run: val5})
 	register(&Rule{ID: "VAL-6", Props: []string{"C06"}, Floor: 7,
 		Doc: "each constructor NewX(into, v) stores v to *into and returns into converted", Run: val6})
-	register(&Rule{ID: "VAL-7", Props: []string{"C06", "C02", "C20"}, Floor: 6,
+	register(&Rule{ID: "VAL-7", Props: []string{"C06", "C02", "C20", "C13"}, Floor: 6,
 		Doc: "multi-valued built-ins: Clear stores nil, Set appends at the end", Run: val7})
 }
 
